@@ -139,8 +139,12 @@ class NameSanitizer:
             # fallback: split on non-alphanumerics
             words = re.split(r"\W+", name)
         module = "_".join(word.lower() for word in words if word)
-        # If it starts with a digit, prefix with underscore
-        if module and module[0].isdigit():
+        # Drop characters that cannot appear in an identifier at all (e.g. "²"), never return an empty
+        # name, and prefix whatever cannot start an identifier (digits)
+        module = "".join(ch for ch in module if ("_" + ch).isidentifier())
+        if not module:
+            module = "unnamed"
+        if not module.isidentifier():
             module = "_" + module
         # Avoid Python keywords and reserved names
         if keyword.iskeyword(module) or module in NameSanitizer.RESERVED_NAMES:
@@ -166,7 +170,11 @@ class NameSanitizer:
         if cls_name[0].isdigit():  # Check after ensuring cls_name is not empty
             cls_name = "_" + cls_name
         # Avoid Python keywords and reserved names (case-insensitive)
-        if keyword.iskeyword(cls_name.lower()) or cls_name.lower() in NameSanitizer.RESERVED_NAMES:
+        if (
+            keyword.iskeyword(cls_name)  # "True", "False", "None" are keywords in their capitalised form
+            or keyword.iskeyword(cls_name.lower())
+            or cls_name.lower() in NameSanitizer.RESERVED_NAMES
+        ):
             cls_name += "_"
         return cls_name
 
@@ -207,7 +215,10 @@ class NameSanitizer:
         # Lowercase and collapse multiple underscores
         name = re.sub(r"_+", "_", name).strip("_").lower()
         # If it starts with a digit, prefix with underscore
-        if name and name[0].isdigit():
+        if not name:
+            # Empty or symbol-only input: still hand back a usable identifier
+            name = "unnamed"
+        if name[0].isdigit():
             name = "_" + name
         # Avoid Python keywords and reserved names
         if keyword.iskeyword(name) or name in NameSanitizer.RESERVED_NAMES:
